@@ -596,6 +596,11 @@ namespace
 	      && (tag != DW_TAG_base_type
 		  || ! dwarf_hasattr_integrate (&type_die, DW_AT_encoding)))
 	    {
+	      // The error indicator of libdw is only reset when it is
+	      // read, and successful calls leave it alone.  Clear it, so
+	      // that what we see below was set by dwarf_diename itself
+	      // and not left behind by something evaluated earlier.
+	      dwarf_errno ();
 	      char const *name = dwarf_diename (&type_die);
 	      if (name == nullptr)
 		{
